@@ -24,6 +24,7 @@ RULE = ('histories of 6-16 (thorough 8-25) operations from {save, load, list all
         'so that state/outputs/ctx change), load-and-run (run the loaded copy to completion)} over 3 live processes with waits, outputs and a '
         'mutable context, pids of one kind per history {ints 1/10/12, UUIDs, strings job/job2/a}, tags {None, ...}; quick 900 histories, '
         'thorough 9000; distinct by history; non-trivial when a load followed a save and progress of the same key')
+RULE += ('; also: saves that fail half way (unpicklable value), mutable inputs changed in place, falsy tags')
 ASSUMPTIONS = ['exception classes are not compared (KeyError vs FileNotFoundError are both "raises")', 'listings compared as sets',
                'bundles compared structurally (exceptions by type and args)']
 REQUIRED = ['saves_compared_with_live', 'failed_saves', 'failed_overwrites', 'ops/save', 'ops/load', 'ops/list', 'ops/listp', 'ops/del', 'ops/delp', 'ops/progress', 'ops/loadrun', 'loads_compared', 'loads_after_progress',
